@@ -670,7 +670,47 @@ func (g *Gen) ifStmt() Stmt {
 		cur.Else = g.blockOf(1 + g.pick(2))
 		g.feat("else")
 	}
+	// branches may end in a bare value (the value of the if expression, discarded when the if is used as a
+	// statement): a literal, a name, or a ternary whose last operand is a literal
+	for b := x; b != nil; b = b.ElseIf {
+		if g.chance(1, 4) {
+			b.Then = append(b.Then, g.trailValue())
+		}
+		if b.HasElse && g.chance(1, 3) {
+			b.Else = append(b.Else, g.trailValue())
+		}
+	}
 	return &ExprStmt{X: x}
+}
+
+// trailValue is an expression statement that only produces a value.
+func (g *Gen) trailValue() Stmt {
+	g.feat("branch-ends-in-bare-value")
+	lit := func() Expr {
+		switch g.pick(4) {
+		case 0:
+			return &IntLit{V: int64(g.pick(100))}
+		case 1:
+			return &BoolLit{V: g.chance(1, 2)}
+		default:
+			return &StrLit{V: []string{"text", "", "a b", "else"}[g.pick(4)]}
+		}
+	}
+	switch g.pick(5) {
+	case 0:
+		if vs := g.visible(func(v *gvar) bool { return v.typ != tFunc }); len(vs) > 0 {
+			return &ExprStmt{X: &Ident{Name: vs[g.pick(len(vs))].name}}
+		}
+	case 1:
+		if !g.inTern {
+			g.feat("ternary-statement")
+			g.inTern = true
+			c := g.expr(tBool, 1)
+			g.inTern = false
+			return &ExprStmt{X: &Ternary{C: c, A: lit(), B: lit()}}
+		}
+	}
+	return &ExprStmt{X: lit()}
 }
 
 func (g *Gen) cond() Expr {
